@@ -85,6 +85,8 @@ fn op_name(o: OpKind) -> String {
 // ------------------------------------------------------------------ the logging stack
 
 thread_local! {
+    /// subscriber shape of the run in progress (for the history text only)
+    static SHAPE: std::cell::Cell<u32> = const { std::cell::Cell::new(0) };
     /// events that reached the counting layer on this thread
     static DELIVERED: std::cell::Cell<u64> = const { std::cell::Cell::new(0) };
 }
@@ -127,20 +129,22 @@ fn emit_direct() -> bool {
     DELIVERED.with(|c| c.get()) != before
 }
 
-/// install the stack once per process and register both call sites, so that every run
-/// starts from the same tracing-core state whatever ran before it in this process
-fn install_logging_stack() {
+/// the subscriber stack of one run.  Shape 0 is what chess-cli installs (`GlobalEnable` as
+/// the outermost layer); in shape 1 the layer and the output sit together below a per-layer
+/// level filter - the composition one writes to make one output switchable and level-limited.
+/// The dispatcher is created (and dropped) by the coordinating thread at run boundaries, so
+/// tracing's automatic re-evaluation of call-site interest happens at a fixed point of the run.
+fn make_dispatch(shape: u32) -> tracing::Dispatch {
     use tracing_subscriber::layer::SubscriberExt;
-    static ONCE: std::sync::Once = std::sync::Once::new();
-    ONCE.call_once(|| {
-        let stack = tracing_subscriber::registry().with(CountLayer).with(tracing_enabled::GlobalEnable);
-        let _ = tracing::subscriber::set_global_default(stack);
-        let _ = emit(0);
-        let _ = emit(1);
-    });
+    use tracing_subscriber::Layer;
+    match shape {
+        0 => tracing::Dispatch::new(tracing_subscriber::registry().with(CountLayer).with(tracing_enabled::GlobalEnable)),
+        _ => tracing::Dispatch::new(tracing_subscriber::registry().with(tracing_enabled::GlobalEnable.and_then(CountLayer).with_filter(tracing_subscriber::filter::LevelFilter::TRACE))),
+    }
 }
 
-fn thread_body(b: Arc<Baton>, tid: usize, ops: Vec<OpKind>, log: Arc<Mutex<Vec<Event>>>, clock: Arc<AtomicU64>) {
+fn thread_body(b: Arc<Baton>, tid: usize, ops: Vec<OpKind>, log: Arc<Mutex<Vec<Event>>>, clock: Arc<AtomicU64>, dispatch: tracing::Dispatch) {
+    let _scoped = tracing::dispatcher::set_default(&dispatch);
     b.enter(tid);
     let mut tokens: Vec<Option<tracing_enabled::LocalEnableState>> = Vec::new();
     for (idx, op) in ops.iter().enumerate() {
@@ -243,16 +247,25 @@ fn run(mut t: Tape) -> RunOut {
     let initial = fresh_read();
     // the call sites' cached interest as tracing computes it at this point (this thread never
     // holds an override): each run starts from the same logging state
-    install_logging_stack();
-    tracing::callsite::rebuild_interest_cache();
+    let shape: u32 = (t.choose(3) == 2) as u32;
+    SHAPE.with(|c| c.set(shape));
+    let dispatch = make_dispatch(shape);
+    {
+        // every call site is registered (first use) before the threads start
+        let _scoped = tracing::dispatcher::set_default(&dispatch);
+        let _ = emit(0);
+        let _ = emit(1);
+        let _ = emit_direct();
+        tracing::callsite::rebuild_interest_cache();
+    }
 
     let b = Baton::new(nthreads, fine);
     let log = Arc::new(Mutex::new(Vec::new()));
     let clock = Arc::new(AtomicU64::new(1));
     let mut handles = Vec::new();
     for (tid, ops) in plans.iter().enumerate() {
-        let (b2, l2, c2, ops2) = (b.clone(), log.clone(), clock.clone(), ops.clone());
-        handles.push(std::thread::spawn(move || thread_body(b2, tid, ops2, l2, c2)));
+        let (b2, l2, c2, ops2, d2) = (b.clone(), log.clone(), clock.clone(), ops.clone(), dispatch.clone());
+        handles.push(std::thread::spawn(move || thread_body(b2, tid, ops2, l2, c2, d2)));
     }
     b.wait_all_parked();
     let mut steps = 0u32;
@@ -517,7 +530,7 @@ fn history_text(o: &RunOut) -> String {
     let mut ev = o.events.clone();
     ev.sort_by_key(|e| e.inv);
     let h: Vec<String> = ev.iter().map(|e| format!("[{}..{}] T{} {}{}", e.inv, e.ret, e.tid, op_name(e.op), e.res.map(|r| format!("={r}")).unwrap_or_default())).collect();
-    format!("initial={} {} final={} (hook granularity: {})", o.initial, h.join(" "), o.final_read, o.fine)
+    format!("initial={} {} final={} (hook granularity: {}; subscriber shape {})", o.initial, h.join(" "), o.final_read, o.fine, SHAPE.with(|c| c.get()))
 }
 
 fn schedule_hash(o: &RunOut) -> u64 {
